@@ -91,6 +91,18 @@ CHECKS["C12"] = dict(level="model_checking", design="5 C12", note=_PANEL_NOTE,
          "constants: every entry of the assembled connection matrix and calc_kt_kr are decided against the exact Hessian. The "
          "coupling block dropped when p1 follows p2 was found by this check and repaired (fix: commit).")
 
+CHECKS["C14"] = dict(level="model_checking", design="5 C14", note=_PANEL_NOTE + " Eigenvalue clauses rest on congruence/scaling "
+    "invariance of generalised eigenvalues (cited theorem) and are additionally observed through lb/freq (dense paths).",
+    technique="TLA+ module PanelEquiv: the equivalence laws (cone at 0 deg = cylinder, cpanel(r) - plate = K1/r + K2/r^2, "
+              "w-only = w block, axis exchange as a permutation congruence, similarity scaling exponents) are TLC invariants "
+              "relating two exact evaluations; both members of every pair are replayed on the real code and judged by TLC "
+              "trace validation; eigenvalues of exchanged/similar partners observed and judged by the trace spec",
+    text="The laws are decided on the specification exactly (rational matrices) and transferred to the code by validating "
+         "both members of each pair against their exact values (so 'identical' means entrywise within 2^-38 of the term "
+         "magnitude, 2^-34 for the numerically integrated kernels), including the numeric-vs-analytic kernel pair at the "
+         "undeformed state; buckling and frequency lists of axis-exchanged and (s,e,q)-similar plates are required to be "
+         "equal / scaled by e*s and sqrt(e/q)/s at 2^-30.")
+
 NOT_YET = {}
 
 NA = {
